@@ -34,6 +34,49 @@ theorem lzma_truncation_is_eof {pr : Lzma.Params} {dictBuf : Nat} {preset : Arra
     Lzma.decodeRaw pr dictBuf preset size (input.take k) cap = .err .eof :=
   Lzma.decodeRaw_trunc h k hk
 
+/-! ### The error class of the LZMA reader (order of events at the end of `LZMAReader::read_decode`)
+
+`lzma_missing_byte_is_eof`: once the range decoder has asked for a byte behind the end of the source, the answer is
+`UnexpectedEof` - whatever the symbol loop stopped for (`stream_error()` is examined before the result of `decode`).
+`lzma_corrupt_symbol_is_other`: a corrupt symbol ("dist overflow", or an end marker in a stream with a declared size)
+reached WITHOUT a missing byte is `Other`, even when the normalisation that would follow needs a byte that is not
+there: `LZMADecoder::decode` returns the error of `LZDecoder::repeat` at once.  (Until round 5 the model normalised
+first and said `UnexpectedEof` in that corner; `./check` tolerated the pair.) -/
+
+theorem lzma_missing_byte_is_eof (pr : Lzma.Params) (dictBuf : Nat) (preset : Array Nat) (size : Option Nat)
+    (input : List Nat) (cap : Nat) (d0 : Rc.Dec) (r : Lzma.LoopRes) (ps : Rc.Probs) (e : Rc.Dec)
+    (hinit : Rc.Dec.init input = some d0)
+    (hrun : (Lzma.rawProg pr dictBuf preset size cap).decRun (Lzma.rawPs0 pr) d0 = (r, ps, e))
+    (hover : e.over > 0) :
+    Lzma.decodeRaw pr dictBuf preset size input cap = .err .eof := by
+  obtain ⟨b1, b2, b3, b4, rest, rfl, _⟩ := Lzma.init_inv hinit
+  rw [Lzma.decodeRaw_run pr dictBuf preset size 0 _ cap d0 rfl hinit r ps e hrun]
+  exact Lzma.rawResult_over0 _ _ _ _ _ _ hover
+
+theorem lzma_corrupt_symbol_is_other (pr : Lzma.Params) (dictBuf : Nat) (preset : Array Nat) (size : Option Nat)
+    (input : List Nat) (cap : Nat) (d0 : Rc.Dec) (r : Lzma.LoopRes) (ps : Rc.Probs) (e : Rc.Dec)
+    (hinit : Rc.Dec.init input = some d0)
+    (hrun : (Lzma.rawProg pr dictBuf preset size cap).decRun (Lzma.rawPs0 pr) d0 = (r, ps, e))
+    (hstop : r.stop = .distOverflow ∨ (r.stop = .endMarker ∧ size.isSome)) (hover : e.over = 0) :
+    Lzma.decodeRaw pr dictBuf preset size input cap = .err .other := by
+  obtain ⟨b1, b2, b3, b4, rest, rfl, _⟩ := Lzma.init_inv hinit
+  rw [Lzma.decodeRaw_run pr dictBuf preset size 0 _ cap d0 rfl hinit r ps e hrun]
+  exact Lzma.rawResult_repeatErr _ _ _ _ _ _ hstop hover
+
+/-- class of a model answer, for kernel evaluation -/
+def errIs : Lzma.DecOut → Lzma.Err → Bool
+  | .err e, e' => e == e'
+  | _, _ => false
+
+/-- non-vacuity, and the corner itself: a 6-byte stream whose first symbol is a match into the empty dictionary
+    ("dist overflow") and takes its last bit from the last byte, leaving `range < 2^24`: the normalisation that would
+    follow needs a 7th byte.  The real reader says `Other`, and so does the model (it said `UnexpectedEof` before);
+    one byte less, and the symbol itself misses a byte: `UnexpectedEof`. -/
+example :
+    errIs (Lzma.decodeRaw LzipFile.lzipParams 4096 #[] none [0x00, 0x80, 0xd4, 0x0a, 0xa3, 0x9d] 4) .other = true ∧
+    errIs (Lzma.decodeRaw LzipFile.lzipParams 4096 #[] none [0x00, 0x80, 0xd4, 0x0a, 0xa3] 4) .eof = true :=
+  ⟨by decide +kernel, by decide +kernel⟩
+
 theorem lzma2_truncation_never_ok {dict : Nat} {preset : Array Nat} {input : List Nat} {cap : Nat} {r : Lzma2.DecOk}
     (h : Lzma2.decode dict preset input cap = .ok r) (k : Nat) (hk : k < r.consumed) (cap' : Nat) (r' : Lzma2.DecOk) :
     Lzma2.decode dict preset (input.take k) cap' ≠ .ok r' :=
